@@ -35,7 +35,8 @@ func init() {
 			"equal canonical expressions denote equal values within one reconcile pass (records are read once per pass; a second read gets a distinct name)",
 			"store methods mutate only Version/Revision/timestamps of the record passed in",
 		},
-		Run: runC02,
+		Run:     runC02,
+		Witness: []WitnessTarget{{pkgProposalCtl, []string{"Reconciler."}}, {pkgTransactionCtl, []string{"Reconciler."}}},
 	})
 }
 
